@@ -1111,6 +1111,18 @@ def feature_files() -> List[Feature]:
            f'<SHORT-NAME>o</SHORT-NAME><DOP-BASE-REF ID-REF="{L}.DOP.u8"/></OUTPUT-PARAM>'
            "</OUTPUT-PARAMS></SINGLE-ECU-JOB>")
     del job  # (OUTPUT-PARAM with OID: found by the perturbation of OutputParam.oid)
+    # -- elements that are present but empty: whatever the parser makes of them (an empty string
+    # for child elements read with findtext) has to survive the round trip
+    tt_empty = dop(f"{L}.DOP.tte", "tt_empty", compu("TEXTTABLE", scales(
+        scale(lim("LOWER-LIMIT", "0"), lim("UPPER-LIMIT", "0"), "<COMPU-CONST><VT></VT></COMPU-CONST>"),
+        scale(lim("LOWER-LIMIT", "1"), lim("UPPER-LIMIT", "1"), "<COMPU-CONST><VT>on</VT></COMPU-CONST>"),
+        scale(lim("LOWER-LIMIT", "2"), lim("UPPER-LIMIT", "2"),
+              "<COMPU-CONST><VT>named</VT></COMPU-CONST>", label="", d="<DESC></DESC>"))
+        + "<COMPU-DEFAULT-VALUE><VT></VT></COMPU-DEFAULT-VALUE>"),
+        dct_std("A_UINT32", 8), "A_UNICODE2STRING")
+    c, r, p = _svc_with_req(L, "tte", 37, p_value("state", f"{L}.DOP.tte", 1))
+    add("empty-text-elements", "CompuConst",
+        mini_container("f_empty", {"DATA-OBJECT-PROPS": tt_empty}, comms=c, requests=r, pos=p))
     # -- description with external documents
     add("description-external-docs", "Description", mini_container(
         "f_extdoc", layer_head='<DESC TI="ti.ext"><p>see also</p><EXTERNAL-DOCS>'
